@@ -405,8 +405,8 @@ class PiecewiseQuadraticCouplingTransform(PiecewiseCouplingTransform):
         unnormalized_heights = transform_params[..., self.num_bins :]
 
         if hasattr(self.transform_net, "hidden_features"):
-            unnormalized_widths /= np.sqrt(self.transform_net.hidden_features)
-            unnormalized_heights /= np.sqrt(self.transform_net.hidden_features)
+            unnormalized_widths = unnormalized_widths / np.sqrt(self.transform_net.hidden_features)
+            unnormalized_heights = unnormalized_heights / np.sqrt(self.transform_net.hidden_features)
 
         if self.tails is None:
             spline_fn = splines.quadratic_spline
@@ -476,8 +476,8 @@ class PiecewiseCubicCouplingTransform(PiecewiseCouplingTransform):
         ]
 
         if hasattr(self.transform_net, "hidden_features"):
-            unnormalized_widths /= np.sqrt(self.transform_net.hidden_features)
-            unnormalized_heights /= np.sqrt(self.transform_net.hidden_features)
+            unnormalized_widths = unnormalized_widths / np.sqrt(self.transform_net.hidden_features)
+            unnormalized_heights = unnormalized_heights / np.sqrt(self.transform_net.hidden_features)
 
         if self.tails is None:
             spline_fn = splines.cubic_spline
@@ -552,11 +552,11 @@ class PiecewiseRationalQuadraticCouplingTransform(PiecewiseCouplingTransform):
         unnormalized_derivatives = transform_params[..., 2 * self.num_bins :]
 
         if hasattr(self.transform_net, "hidden_features"):
-            unnormalized_widths /= np.sqrt(self.transform_net.hidden_features)
-            unnormalized_heights /= np.sqrt(self.transform_net.hidden_features)
+            unnormalized_widths = unnormalized_widths / np.sqrt(self.transform_net.hidden_features)
+            unnormalized_heights = unnormalized_heights / np.sqrt(self.transform_net.hidden_features)
         elif hasattr(self.transform_net, "hidden_channels"):
-            unnormalized_widths /= np.sqrt(self.transform_net.hidden_channels)
-            unnormalized_heights /= np.sqrt(self.transform_net.hidden_channels)
+            unnormalized_widths = unnormalized_widths / np.sqrt(self.transform_net.hidden_channels)
+            unnormalized_heights = unnormalized_heights / np.sqrt(self.transform_net.hidden_channels)
         else:
             warnings.warn(
                 "Inputs to the softmax are not scaled down: initialization might be bad."
